@@ -10,7 +10,7 @@ MANIFEST = {
                   "equals the one-shot escape spec, escape output has no forbidden triple, every 00 00 03 is an inserted escape and every "
                   "inserted byte is required, unescape inverts escape. Exact domain of the 64-bit accumulators: Write(v, n) appends exactly "
                   "the n low bits whenever pending + n <= 64 (every n <= 57 at any alignment, n = 0 appends nothing, up to 64 at a byte "
-                  "boundary), a wider value is masked, never spilled, and for every n <= 64 the only loss is that the topmost "
+                  "boundary), a wider value is masked, never spilled, and for every n whatsoever the only loss is that the topmost "
                   "pending + n - 64 pending bits become zeros; EBSPReader.Read(n) for every n returns the true value modulo 2^(64 - k), "
                   "k = bits left pending, with the stream position always right, hence exact whenever n + k <= 64 (every n <= 57); "
                   "witnesses show both bounds tight (7 pending bits + Write(1, 58) corrupts the previous value, Read(58) after 7 bits "
@@ -32,7 +32,7 @@ MANIFEST = {
                   "FixedSliceWriter.WriteBits+FlushBits round-trip through Reader; FixedSliceWriter capacity / stickiness / byte methods, "
                   "ByteWriter prefix-at-limit; the same for the plain Reader.Read, and Reader.ReadSigned(n) returns the next n bits as a "
                   "two's-complement number whenever n + k <= 64. Only explored (correspondence + search on the real code, not "
-                  "proved): Write with widths 65..70, reads of Exp-Golomb prefixes longer than 57 bits (malformed streams). The model "
+                  "proved): reads of Exp-Golomb prefixes longer than 57 bits (malformed streams). The model "
                   "is tied to /repo on every run by running it (extracted) against the real bits package on exhaustive small byte "
                   "strings, every width 0..70 after every number of pending bits, and random op sequences.",
     "level_note": "Trusted: Coq kernel, extraction (ExtrOcamlBasic), the OCaml/Go glue, and the correspondence being only as good as "
